@@ -207,6 +207,13 @@ let suite_chunk t v =
          end
      | _ -> ());
     if M.Z.ltb M.Z0 chunk && not (M.all_le_b chunk mine) then oracle v "chunk_too_large" false;
+    (* C08: the tracker takes the send size stamped on a chunk for the number of bytes that have to be
+       acknowledged before the file is logged as sent: every chunk of a file carries the same one, the sum of
+       its chunks' lengths *)
+    let sends = List.filter_map (fun (f, _, _, sd) -> if f = i then Some sd else None) ichunks in
+    let total = List.fold_left (fun a (_, l) -> M.Z.add a l) M.Z0 mine in
+    if mine <> [] && List.for_all (fun (_, l) -> M.Z.ltb M.Z0 l) mine && List.exists (fun sd -> not (zeq sd total)) sends then
+      oracle v "send_size_is_not_the_bytes_to_send" false;
     (* parts of this file, in transmission order, tile its chunks without crossing them *)
     let myparts = List.concat (List.map (fun p -> List.filter_map (fun (f, b, e) -> if f = i then Some (b, M.Z.sub e b) else None) p) ipays) in
     let chunk_ranges = List.map (fun (o, l) -> (o, M.Z.add o l)) mine in
@@ -611,6 +618,7 @@ let suite_stage t v =
   let after_recover = ref false in
   let cleared : (string, unit) Hashtbl.t = Hashtbl.create 4 in
   let cleaned_once = ref false in
+  let cleaned_after_div = ref false in
   (* is the file on a cycle of announced predecessor references (any version)? then the
      periodic cleaner may legitimately give up the order for it *)
   let in_cycle n =
@@ -902,9 +910,26 @@ let suite_stage t v =
        | `RC (p, _, _) ->
            ignore (nb t);
            let ns = string_of_name p.M.p_name and hs = string_of_name p.M.p_hash in
-           if not (List.mem hs (Hashtbl.find_all announced ns)) then Hashtbl.add announced ns hs
+           if not (List.mem hs (Hashtbl.find_all announced ns)) then Hashtbl.add announced ns hs;
+           let logged_already = (match !last_snap with
+             | Some sn -> List.exists (fun (ln, _, lh, _) -> ln = ns && lh = hs) sn.slog | None -> false) in
+           if not logged_already then Hashtbl.replace ann_prev (ns, hs) (string_of_name p.M.p_prev)
        | `ST | `TF | `RS | `CL | `VR ->
+           (match op with `CL -> cleaned_after_div := true | _ -> ());
            let isn = parse_snap t in
+           (* C04: never logged before the predecessor it was announced with (not judged once the cleaner has
+              run after the divergence: it clears predecessors of cycles, and only the model knew which) *)
+           if not !cleaned_after_div then begin
+             let rec order seen = function
+               | [] -> ()
+               | (n, _, h, _) :: rest ->
+                   (match Hashtbl.find_opt ann_prev (n, h) with
+                    | Some pv when pv <> "" && pv <> n && not (Hashtbl.mem cleared n) && not (!cleaned_once && in_cycle n) ->
+                        if not (List.mem pv seen) then oracle v "delivered_before_predecessor" false
+                    | _ -> ());
+                   order (n :: seen) rest in
+             order [] isn.slog
+           end;
            List.iter (fun (tn, _, m) ->
              if not (Filename.check_suffix tn ".lck") then
              let ok = List.exists (fun (n, r, h, _) -> (if r = "" then n else r) = tn && List.mem h (Hashtbl.find_all announced n) && h = m) isn.slog in
